@@ -105,36 +105,42 @@ def canonical(d):
     c["containers"] = sorted(d["containers"], key=lambda kc: (kc[0], json.dumps(kc[1], sort_keys=True)))
     return c
 
-def items_file(d):
-    """The Coq source for one fixture dump."""
-    d = canonical(d)
-    name = d["fixture"]
+def dump_defs(d, px=""):
+    """Coq definitions for one dump (already canonical); every name gets the prefix px."""
     wire, clash = wire_names(d)
-    out = ["(* GENERATED on every run by engines/cli_eng.py from crux_cli::codegen::verif::verif_run(%s): do not edit. *)" % name, HEADER]
-    todo = []
+    out, todo = [], []
     for i, it in enumerate(d["items"]):
         f = it["format"]
         if f is None: fm = "None"
         elif "Ok" in f: fm = "(Some %s)" % cfmt(f["Ok"])
         else: fm = "(Some FTodo)"; todo.append(i)
         rg = copt(ccontainer(it["range"]) if it["range"] is not None else None)
-        out.append("Definition i%d : item := mkItem (%s, %s) %s %s %s %s %s %s." % (
-            i, cstr(it["crate_"]), cN(it["id"]), copt(cstr(it["name"]) if it["name"] is not None else None), ckind(it["kind"]),
+        out.append("Definition %si%d : item := mkItem (%s, %s) %s %s %s %s %s %s %s." % (
+            px, i, cstr(it["crate_"]), cN(it["id"]), copt(cstr(it["name"]) if it["name"] is not None else None),
+            copt(cstr(it["raw_name"]) if it["raw_name"] is not None else None), ckind(it["kind"]),
             "true" if it["skip"] else "false", copt(cstr(wire[i]) if wire.get(i) is not None else None), fm, rg))
-    pair = lambda a, b: "(i%d, i%d)" % (a, b)
-    out.append("Definition items : list item := %s." % clist(["i%d" % i for i in range(len(d["items"]))]))
-    out.append("Definition edge_list : edges := %s." % clist([pair(e["from"], e["to"]) for e in d["edges"]]))
-    out.append("Definition edge_flags : list (bool * bool) := %s." % clist(
-        ["(%s, %s)" % ("true" if e["has_field"] else "false", "true" if e["has_variant"] else "false") for e in d["edges"]]))
-    out.append("Definition f_root : list item := %s." % clist(["i%d" % i for i in d["root"]]))
-    out.append("Definition f_field : edges := %s." % clist([pair(a, b) for a, b in d["field"]]))
-    out.append("Definition f_variant : edges := %s." % clist([pair(a, b) for a, b in d["variant"]]))
-    out.append("Definition f_type : edges := %s." % clist([pair(a, b) for a, b in d["local_type_of"]]))
-    out.append("Definition the_dump : dump := mkDump items f_root f_field f_variant f_type.")
-    out.append("Definition crates : list string := %s." % clist([cstr(c) for c in sorted({it["crate_"] for it in d["items"]})]))
-    out.append("Definition real_containers : list (string * container) := %s." % ccontainers(d["containers"]))
-    out.append("Definition real_registry : registry := %s." % cregistry(d["result"]["ok"]))
-    return "\n".join(out) + "\n", clash, todo
+    I = lambda i: "%si%d" % (px, i)
+    pair = lambda a, b: "(%s, %s)" % (I(a), I(b))
+    out.append("Definition %sitems : list item := %s." % (px, clist([I(i) for i in range(len(d["items"]))])))
+    out.append("Definition %sedge_list : edges := %s." % (px, clist([pair(e["from"], e["to"]) for e in d["edges"]])))
+    out.append("Definition %sedge_flags : list (bool * bool) := %s." % (px, clist(
+        ["(%s, %s)" % ("true" if e["has_field"] else "false", "true" if e["has_variant"] else "false") for e in d["edges"]])))
+    out.append("Definition %sf_root : list item := %s." % (px, clist([I(i) for i in d["root"]])))
+    out.append("Definition %sf_field : edges := %s." % (px, clist([pair(a, b) for a, b in d["field"]])))
+    out.append("Definition %sf_variant : edges := %s." % (px, clist([pair(a, b) for a, b in d["variant"]])))
+    out.append("Definition %sf_type : edges := %s." % (px, clist([pair(a, b) for a, b in d["local_type_of"]])))
+    out.append("Definition %sthe_dump : dump := mkDump %sitems %sf_root %sf_field %sf_variant %sf_type." % ((px,) * 6))
+    out.append("Definition %scrates : list string := %s." % (px, clist([cstr(c) for c in sorted({it["crate_"] for it in d["items"]})])))
+    out.append("Definition %sreal_containers : list (string * container) := %s." % (px, ccontainers(d["containers"])))
+    out.append("Definition %sreal_registry : registry := %s." % (px, cregistry(d["result"]["ok"])))
+    return out, clash, todo
+
+def items_file(d):
+    """The Coq source for one fixture dump."""
+    d = canonical(d)
+    out, clash, todo = dump_defs(d)
+    head = ["(* GENERATED on every run by engines/cli_eng.py from crux_cli::codegen::verif::verif_run(%s): do not edit. *)" % d["fixture"], HEADER]
+    return "\n".join(head + out) + "\n", clash, todo
 
 def traced_file(traces):
     out = ["(* GENERATED on every run by engines/cli_eng.py from crux_core::typegen::TypeGen (serde-reflection) on the real serde impls: do not edit. *)", HEADER]
@@ -151,3 +157,230 @@ def write_if_changed(path, text):
         os.replace(tmp, path)
         return True
     return False
+
+# ---------------------------------------------------------------- the check
+KNOWN_BITS = [(1, "request_without_effect"), (2, "name_collision"), (4, "childless_enum_undefined"),
+              (8, "nested_range_undefined"), (16, "renamed_type_reference")]
+
+CASE_HEADER = ("From Coq Require Import List String NArith Bool.\nFrom Crux Require Import Cli.Format Cli.Pipeline.\n"
+               "From Crux Require %s Gen.CliTraced.\nImport ListNotations.\nOpen Scope string_scope.\n"
+               % " ".join("Gen.CliItems_%s" % f for f in FIXTURES))
+
+def use_alt_coq_tree():
+    """With VERIF_REPO the regenerated Gen files must not overwrite the ones of the main tree: work on a
+    copy of coq/ under .cache/alt/<hash>/coq (timestamps kept, so the build stays incremental)."""
+    if C.ALT and not C.COQ.startswith(C.ALT):
+        dst = os.path.join(C.ALT, "coq")
+        os.makedirs(dst, exist_ok=True)
+        with C.Lock("coq"):
+            C.sh("rsync -a --delete %s/ %s/" % (os.path.join(C.ROOT, "coq"), dst))
+        C.COQ = dst
+
+def jhash(x):
+    return hashlib.sha1(json.dumps(x, sort_keys=False).encode()).hexdigest()[:12]
+
+class RegTable:
+    """Distinct observed registries, each defined once in a case file."""
+    def __init__(self):
+        self.by_hash, self.defs = {}, []
+    def name(self, reg):
+        h = jhash(reg)
+        if h not in self.by_hash:
+            self.by_hash[h] = "r%d" % len(self.defs)
+            self.defs.append("Definition r%d : registry := %s." % (len(self.defs), cregistry(reg)))
+        return self.by_hash[h]
+
+def obs_term(tab, result):
+    return "(Some %s)" % tab.name(result["ok"]) if "ok" in result else "None"
+
+def run_harness(binp, args, timeout=2400):
+    rc, out = C.sh("%s %s" % (binp, args), timeout=timeout)
+    rows = []
+    for l in out.splitlines():
+        if l.startswith("{"):
+            try: rows.append(json.loads(l))
+            except ValueError: pass
+    return rc, rows, out
+
+def check_C20(run, replay=None):
+    tier = run.tier
+    n_transform = 300 if tier == "quick" else 5000
+    n_edges = 240 if tier == "quick" else 3000
+    n_synth, k_synth = (90, 3) if tier == "quick" else (1500, 5)
+    use_alt_coq_tree()
+    ok, log, bins = C.harness_build(["cli_codegen"], crate="harness_cli")
+    run.oblige("harness-build cli_codegen (crux_cli + capability crates from the working tree, --cfg crux_verif)", ok, log[-2500:])
+    if not ok:
+        # the hook or the API it drives no longer compiles: nothing can be regenerated
+        C.proof_stage(run, "C20")
+        return
+    binp = bins["cli_codegen"]
+
+    # ---- translator: regenerate coq/Gen from the current code
+    rc, dumps, out = run_harness(binp, "dump")
+    rc2, traces, out2 = run_harness(binp, "trace")
+    dumps = {d["fixture"]: d for d in dumps if d.get("kind") == "dump"}
+    traces = {t["crate"]: t for t in traces if t.get("kind") == "trace"}
+    good = rc == 0 and all(f in dumps and "ok" in dumps[f]["result"] and "items" in dumps[f] for f in FIXTURES)
+    run.oblige("translator: verif_run succeeds on the %d bundled descriptions" % len(FIXTURES), good,
+               out[-1200:] if not good else "")
+    goodt = rc2 == 0 and all(c in traces and "ok" in traces[c]["result"] for c in CAPS)
+    run.oblige("translator: TypeGen traces the protocol types of %s" % ", ".join(CAPS), goodt, json.dumps(list(traces.values()))[:1200] if not goodt else "")
+    if not (good and goodt):
+        failing = [{"fixture": f, "result": dumps.get(f, {}).get("result")} for f in FIXTURES if not (f in dumps and "ok" in dumps[f]["result"])]
+        run.violation("translator", {"property": "C20", "what": "codegen run fails or panics on a bundled description / tracing fails",
+                                     "cases": failing, "traces": [t for t in traces.values() if "ok" not in t["result"]]})
+        return
+    canon = {f: canonical(dumps[f]) for f in FIXTURES}
+    clashes, todos = {}, {}
+    with C.Lock("coq"):
+        for f in FIXTURES:
+            txt, clash, todo = items_file(dumps[f])
+            if clash: clashes[f] = clash
+            write_if_changed(os.path.join(C.COQ, "Gen", "CliItems_%s.v" % f), txt)
+        write_if_changed(os.path.join(C.COQ, "Gen", "CliTraced.v"), traced_file([traces[c] for c in CAPS]))
+    run.oblige("translator: one wire name per dumped field/variant", not clashes, json.dumps(clashes)[:600])
+    suite_ok = [f for f in SUITE if dumps[f]["expected"] == dumps[f]["result"]["ok"]]
+    run.oblige("the five descriptions crux_cli's own test runs give the expected.json registry", len(suite_ok) == len(SUITE),
+               "differs: %s" % [f for f in SUITE if f not in suite_ok])
+
+    # ---- proofs (after regeneration: Properties/C20.v states theorems about the regenerated terms)
+    proofs_ok = C.proof_stage(run, "C20")
+
+    # ---- correspondence runs
+    cases = []
+    if replay:
+        rp = json.load(open(replay))
+        for c in rp.get("cases", []):
+            if c.get("kind") == "transform":
+                rc, rows, _ = run_harness(binp, "transform-one %s %s %d" % (c["fixture"], c["case_seed"], 1 if c.get("identity") else 0))
+                cases += rows
+            elif c.get("kind") == "synth":
+                rc, rows, _ = run_harness(binp, "synth-one %s %d" % (c["case_seed"], int(c.get("runs_requested", 3))))
+                cases += rows
+        tr_rows = [c for c in cases if c.get("kind") == "transform"]
+        sy_rows = [c for c in cases if c.get("kind") == "synth"]
+        ed_rows = []
+    else:
+        rc, sy_rows, out = run_harness(binp, "synth %d %d %d" % (run.seed, n_synth, k_synth))
+        run.oblige("harness-run synth (%d synthetic descriptions x %d transformed runs)" % (n_synth, k_synth), rc == 0 and len(sy_rows) == n_synth, out[-800:] if rc else "")
+        rc, tr_rows, out = run_harness(binp, "transform %d %d" % (run.seed, n_transform))
+        run.oblige("harness-run transform (%d cases)" % n_transform, rc == 0 and len(tr_rows) == n_transform, out[-800:] if rc else "")
+        rc, ed_rows, out = run_harness(binp, "edges %d %d" % (run.seed, n_edges))
+        run.oblige("harness-run edges (%d cases)" % n_edges, rc == 0 and len(ed_rows) == n_edges, out[-800:] if rc else "")
+
+    base = {f: dumps[f]["result"]["ok"] for f in FIXTURES}
+    # entries: (kind, payload, coq term producing the verdict)
+    entries = []
+    for f in FIXTURES:
+        m = "CliItems_%s" % f
+        entries.append(("fixture", {"kind": "fixture", "fixture": f, "registry": base[f]},
+                        "verdict_fixture %s %s.the_dump %s.edge_list %s.real_registry %s.crates" % ("true" if f in APPS else "false", m, m, m, m), []))
+    for c in CAPS:
+        m = "CliItems_%s" % c
+        entries.append(("trace", {"kind": "trace", "crate": c, "cli": base[c], "traced": traces[c]["result"]["ok"]},
+                        "verdict_trace %s.edge_list %s.real_registry CliTraced.traced_%s" % (m, m, c), []))
+    tab = RegTable()
+    for c in tr_rows:
+        m = "CliItems_%s" % c["fixture"]
+        entries.append(("transform", c, "verdict_transform (format %s.edge_list) %s.real_registry %s" % (m, m, obs_term(tab, c["result"])), []))
+    edge_index = {f: {(canon[f]["items"][e["from"]]["crate_"], canon[f]["items"][e["from"]]["id"],
+                       canon[f]["items"][e["to"]]["crate_"], canon[f]["items"][e["to"]]["id"]): k
+                      for k, e in enumerate(canon[f]["edges"])} for f in FIXTURES}
+    for c in ed_rows:
+        f = c["fixture"]; m = "CliItems_%s" % f
+        picks = [edge_index[f][tuple(p)] for p in c["pick_edges"]]
+        c["picks"] = picks
+        entries.append(("edges", c, "verdict_edges %s.edge_list %s.real_registry %s %s" % (m, m, clist([str(p) for p in picks]), obs_term(tab, c["result"])), []))
+    invalid_synth = []
+    for n, c in enumerate(sy_rows):
+        if "ok" not in c["result"] or "items" not in c:
+            invalid_synth.append(c); continue
+        px = "s%d_" % n
+        defs, clash, todo = dump_defs(canonical(c), px)
+        obs = []
+        for j, r in enumerate(c["runs"]):
+            if "ok" not in r["result"]: obs.append("None")
+            elif r["result"]["ok"] == c["result"]["ok"]: obs.append("(Some %sreal_registry)" % px)
+            else:
+                defs.append("Definition %so%d : registry := %s." % (px, j, cregistry(r["result"]["ok"])))
+                obs.append("(Some %so%d)" % (px, j))
+        entries.append(("synth", c, "verdict_synth %sthe_dump %sedge_list %sreal_registry %scrates %s" % (px, px, px, px, clist(obs)), defs))
+
+    nsh = 16 if len(entries) > 64 else 4
+    shards = [entries[i::nsh] for i in range(nsh)]
+    texts = []
+    for sh in shards:
+        t = [CASE_HEADER] + tab.defs
+        for e in sh: t += e[3]
+        t.append("Eval vm_compute in (%s : list N)." % clist(["(%s)" % e[2] for e in sh]))
+        texts.append("\n".join(t))
+    res = C.run_case_files("C20", texts, timeout=2400)
+
+    classes = collections.Counter()
+    hist = collections.Counter(); load_orders = collections.defaultdict(set); styles = collections.Counter()
+    bad_ok, bad_model, lossy = [], [], []
+    for sh, (ok, vals, raw) in zip(shards, res):
+        if not ok or len(vals) != 1 or len(vals[0]) != len(sh):
+            run.oblige("case-evaluation shard", False, raw[-1200:]); continue
+        for (kind, c, _, _), v in zip(sh, vals[0]):
+            hist[kind] += 1
+            key = (kind, c.get("fixture", c.get("crate")), c.get("case_seed"), tuple(c.get("picks", [])))
+            run.note_case(key, nontrivial=not c.get("identity", False))
+            run.cov["traces_validated_against_impl"] += 1
+            if kind == "transform":
+                load_orders[c["fixture"]].add(tuple(c["load_order"]))
+                for cr, op in c["ops"].items():
+                    styles["id_style_%d" % op["id_style"]] += 1
+                    if op["shuffle_maps"]: styles["shuffled_maps"] += 1
+                    if op["crate_mul"] != 1: styles["crate_numbers_renamed"] += 1
+                same_json = c["result"].get("ok") == base[c["fixture"]]
+                # the translator must not blur a difference: JSON comparison and Coq verdict agree
+                if same_json != (v in (0, 1) or 100 < v < 132):
+                    lossy.append({"case": c, "verdict": v, "json_equal": same_json})
+                if c["ambiguous_names"]:
+                    bad_ok.append({**c, "why": "two different containers share a name: the collected map depends on the visiting order"})
+            if kind == "edges":
+                styles["edges_style_%d" % c["style"]] += 1
+            if v == 2: bad_ok.append({**c, "verdict": 2})
+            elif v == 1: bad_model.append({**c, "verdict": 1})
+            elif 100 < v < 132:
+                for bitv, cls in KNOWN_BITS:
+                    if (v - 100) & bitv:
+                        run.known_seen.setdefault(cls, {"kind": kind, "fixture": c.get("fixture", c.get("crate")), "case_seed": c.get("case_seed"),
+                                                        "replay": ("cli_codegen synth-one %s %s" % (c.get("case_seed"), c.get("runs_requested"))) if kind == "synth" else "capability crate as root"})
+                        classes[cls] += 1
+            elif v != 0: bad_model.append({**c, "verdict": v})
+            if kind == "synth":
+                styles["synth_types_%d" % len(c["spec"]["types"])] += 1
+                styles["synth_with_dep" if c["spec"]["has_dep"] else "synth_single_crate"] += 1
+                styles["synth_loaded_%d_crates" % len(c["load_order"])] += 1
+                if any(r["result"] != c["result"] for r in c["runs"]): styles["synth_order_dependent_result_seen"] += 1
+    run.oblige("translator is not lossy: JSON equality of registries agrees with the Coq verdicts", not lossy, json.dumps(lossy[:2])[:800])
+    run.oblige("correspondence: Formatter/closure models = implementation (%d fixtures, %d edge multisets, %d transformed descriptions, %d traced crates)"
+               % (hist["fixture"], hist["edges"], hist["transform"], hist["trace"]), not bad_model, json.dumps(bad_model[:2])[:1200])
+    run.oblige("C20_ok on every registry the implementation returned, outside known classes", not bad_ok, json.dumps(bad_ok[:2])[:1200])
+    run.oblige("synthetic descriptions: the untransformed run succeeds (generator validity)", len(invalid_synth) * 20 <= max(1, len(sy_rows)),
+               json.dumps([{k: c.get(k) for k in ("case_seed", "result")} for c in invalid_synth[:3]])[:800])
+    slim = lambda c: {k: v for k, v in c.items() if k not in ("items", "edges", "root", "field", "variant", "local_type_of", "containers", "picks")}
+    if bad_ok:
+        run.violation("C20_ok", {"property": "C20", "what": "registry differs from the untransformed description's / is not closed / variant indices not contiguous / differs from the traced serde schema",
+                                 "cases": [slim(c) for c in bad_ok[:10]],
+                                 "how_to_replay": "./check C20 --replay <this file> re-runs each transform case (fixture, case_seed) / synthetic case (case_seed) on the current tree: harness_cli cli_codegen transform-one <fixture> <case_seed> <identity> | synth-one <case_seed> <k>"})
+    elif bad_model:
+        run.violation("correspondence", {"property": "C20", "what": "model and implementation differ; C20_ok still holds on all implementation results seen",
+                                         "cases": [slim(c) for c in bad_model[:10]], "broken": "correspondence Cli/Format.v + Cli/Closure.v vs crux_cli::codegen"}, no_input=True)
+    run.cov["rule"] = ("every bundled rustdoc description (7 apps + 5 capability crates, each as root) x {identity, random per-crate transformation = injective id renumbering "
+                       "(affine mod 2^32 / xor / dense permutation) through a serde adapter on the Id newtype + external crate renumbering + shuffled JSON map orders}; the dependent crates are "
+                       "loaded in whatever order run() asks (hash order varies per run, orders seen are recorded); plus the real format() on permuted sub-multisets of each description's edges "
+                       "(permutation / subset / one edge dropped / duplicates / neighbourhood / reversed); plus random synthetic descriptions (an App with Event/ViewModel/optional Effect, 3-9 types, optional dependency crate, "
+                       "serde skip/rename/rename_all/serde_bytes, unit/empty/all-skipped shapes, same-named types, Range fields) lowered to rustdoc_types::Crate, each run untransformed (dumped, model-checked) and 3/5 times transformed. A case is counted when (kind, fixture, case seed, picks) is distinct; identity cases are trivial.")
+    run.cov["samples"] = [slim({k: v for k, v in c.items() if k not in ("result", "runs", "pick_edges")}) for c in (tr_rows[12:14] + ed_rows[:2] + sy_rows[:1])]
+    run.extra["distribution"] = {"cases_per_kind": dict(hist), "known_class_hits": dict(classes), "synthetic_invalid": len(invalid_synth), "transform_and_edge_styles": dict(styles),
+                                 "distinct_crate_load_orders_seen": {f: len(s) for f, s in load_orders.items()},
+                                 "ids_renamed_total": sum(c["ids_renamed"] for c in tr_rows)}
+    run.assumptions += ["item-level predicates of the CLI (kind, field_ids/variant_ids, serde rename/skip, rename_all, Type -> Format, is_range) are dumped from the code, not modelled; tied by correspondence",
+                        "ascent evaluates a Datalog program to its least fixpoint (model: Closure.iterate, proved to compute the least fixpoint; compared with the real edge relation per fixture)",
+                        "rustdoc JSON parsing (rustdoc_types, serde_json) is outside the model; the bundled descriptions are snapshots, the traced schemas come from the current sources"]
+    run.trusted += ["hand-written models coq/Cli/Format.v, Closure.v, Pipeline.v", "translator engines/cli_eng.py (JSON -> Coq terms; checked not lossy against JSON equality each run)",
+                    "harness_cli (cli_codegen.rs, renumber.rs serde adapter, lib.rs transformations)", "the verif_run hook crux_cli/src/codegen/verif.rs (dump code)", "lib/common.py parser of coqc output"]
